@@ -333,6 +333,7 @@ pub fn run_stream(mut p: stream::Parser, wire_bytes: &[u8], mut pos: usize, ch: 
     let mut output = Vec::new();
     let mut calls = 0usize;
     let mut idle_rounds = 0;
+    let mut last_idle_rem: Option<Result<Vec<u8>, ErrKind>> = None;
     let mut switched = false;
     let terminal;
     loop {
@@ -430,6 +431,17 @@ pub fn run_stream(mut p: stream::Parser, wire_bytes: &[u8], mut pos: usize, ch: 
                         let next = order.iter().position(|&x| x == s).and_then(|i| order.get(i + 1)).copied();
                         vensure!(p.set_stream(next.map(rt)).is_ok(), "stream-advance-rejected", "advancing from {s} to {next:?} rejected");
                         progressed = true;
+                    }
+                }
+                if !progressed {
+                    // A call may consume buffered records without anything to show for it (a
+                    // parser is free to handle one silent record per call): compare what is
+                    // left unread before deciding that nothing moves any more.
+                    let rem = p.clone().into_input().map_err(|e| err_kind(&e));
+                    if last_idle_rem.as_ref() != Some(&rem) {
+                        last_idle_rem = Some(rem);
+                        idle_rounds = 0;
+                        continue;
                     }
                 }
                 if !progressed {
@@ -540,8 +552,16 @@ pub fn test(c: &Case) -> TestResult {
                                 vensure!(a == b, "c03-chunking-dependent", "{ctx} {policy:?}: stream {s} delivered {} bytes, reference {} (first difference at {:?})", b.len(), a.len(), a.iter().zip(b.iter()).position(|(x, y)| x != y));
                             }
                         }
-                        if !failing {
-                            vensure!(r.remainder == so.remainder, "c03-chunking-dependent", "{ctx} {policy:?}: unread remainder differs from the reference run");
+                        // "on success ... the unread remainder": comparable only when both runs end at
+                        // a record boundary; an input that stops in the middle of a record has no
+                        // success outcome, and how much of the partial record a parser has already
+                        // taken in is its own business
+                        if !failing && r.remainder.is_ok() && so.remainder.is_ok() && r.records_seen_end && so.records_seen_end {
+                            let (a, b) = (r.remainder.as_ref().unwrap(), so.remainder.as_ref().unwrap());
+                            // either both hold the same unread suffix, or one of them has stopped
+                            // in front of a trailing incomplete record that the other has begun
+                            let whole_records = |v: &Vec<u8>| wire::decode_log(v).map(|(_, used)| used == v.len()).unwrap_or(false);
+                            vensure!(a == b || !(whole_records(a) && whole_records(b)), "c03-chunking-dependent", "{ctx} {policy:?}: unread remainder differs from the reference run ({} vs {} bytes, both whole records)", b.len(), a.len());
                         }
                     },
                 }
